@@ -1009,7 +1009,11 @@ func (c *Client) handleModifyResponse(m *spb.ModifyResponse) error {
 
 	for _, r := range m.Result {
 		res, err := c.clearPendingOp(r)
-		c.qs.resultq = append(c.qs.resultq, res)
+		if res != nil {
+			// There is no result to record for an AFTResult that could not be matched
+			// to an operation, a nil entry would crash callers that walk the results.
+			c.qs.resultq = append(c.qs.resultq, res)
+		}
 		if err != nil {
 			return fmt.Errorf("cannot remove pending operation %d, %v", r.Id, err)
 		}
